@@ -41,9 +41,14 @@ def check_feedback(events, result, increments, sensors, start, loop):
         out.append(vio('trajectory_nonfinite', 'non-finite values in the trajectory'))
     # (3) measurement samples
     hits = {}
+    all_hits = []
     for e in events:
         if e['kind'] == 'compute_matrices' and e['hit']:
             hits.setdefault(e['cls'], []).append(e['time'])
+            all_hits.append((e['time'], e['cls']))
+    if len(all_hits) > 1 and not (np.diff([t for t, _ in all_hits]) >= 0).all():
+        k = int(np.argmax(np.diff([t for t, _ in all_hits]) < 0))
+        out.append(vio('measurements_out_of_time_order', f'samples are not processed in time order across sensors: {all_hits[k]} before {all_hits[k + 1]}'))
     for m in sensors:
         name = type(m).__name__
         samples = np.asarray(m.data.index, float)
@@ -116,9 +121,14 @@ def check_feedforward(events, result, times, sensors, time_step, loop):
         if not finite_table(tab):
             out.append(vio('table_nonfinite', f'{k}: non-finite values'))
     hits = {}
+    all_hits = []
     for e in events:
         if e['kind'] == 'compute_matrices' and e['hit']:
             hits.setdefault(e['cls'], []).append(e['time'])
+            all_hits.append((e['time'], e['cls']))
+    if len(all_hits) > 1 and not (np.diff([t for t, _ in all_hits]) >= 0).all():
+        k = int(np.argmax(np.diff([t for t, _ in all_hits]) < 0))
+        out.append(vio('measurements_out_of_time_order', f'samples are not used in time order across sensors: {all_hits[k]} before {all_hits[k + 1]}'))
     for m in sensors:
         name = type(m).__name__
         samples = np.asarray(m.data.index, float)
